@@ -82,7 +82,7 @@ def run_one(name, kind, src, checks):
 def main():
     m = discover()
     sel = sys.argv[1:]
-    out_path = os.path.join(VERIF, "seeded", "RESULTS.json")
+    out_path = os.environ.get("MUTANTS_RESULTS") or os.path.join(VERIF, "seeded", "RESULTS.json")  # shards: own file each, merged afterwards
     os.makedirs(os.path.dirname(out_path), exist_ok=True)
     results = json.load(open(out_path)) if os.path.exists(out_path) else {}
     for name, (kind, src, checks) in m.items():
